@@ -141,7 +141,10 @@ class Real:
         c = self.env["rawcache"]
         v = c.get(pdu)
         if v is None:
-            v = isinstance(self.env["service"].UDSRequest.parse_dynamic(pdu), self.env["service"].RawRequest)
+            try:
+                v = isinstance(self.env["service"].UDSRequest.parse_dynamic(pdu), self.env["service"].RawRequest)
+            except Exception:  # noqa: BLE001 - a parser that raises has no typed view of the bytes: the ISO rules treat them as unparsable
+                v = True
             if len(c) < 400000:
                 c[pdu] = v
         return v
